@@ -46,7 +46,7 @@ def doc_wap(line, hdr_lines, waptop):
     if not doc_http(line):
         return False
     uri = line.split(" ")[1].strip()
-    if uri.startswith(waptop):
+    if uri == waptop or uri.startswith((waptop + "/", waptop + "?")):
         return True
     h = doc_headers(hdr_lines)
     acc = h.get("accept")
